@@ -14,6 +14,7 @@ func sortInts(a []int)                { sort.Ints(a) }
 var families = map[string]func(dir string, seed int64, tier string){
 	"codec": famCodec,
 	"compare": famCompare,
+	"hash": famHash,
 }
 
 func main() {
